@@ -2,7 +2,7 @@ import os, sys, copy
 sys.path.insert(0, os.path.dirname(os.path.abspath(__file__)))
 from core_unit import CORE_UNIT
 U = copy.deepcopy(CORE_UNIT); U['wrappers'] = None; U['roots'] = U['roots'] + ['Teakra::Interpreter::SignalInterrupt', 'Teakra::Interpreter::SignalVectoredInterrupt']
-TMO = 1200
+TMO = 900
 def dynamic_obligations(metas, tier, wd):
     ents = [e for e in metas['proc']['decode_entries'].get('Interpreter', []) if e['name'] == 'brr']
     if len(ents) != 1: raise SystemExit('UNDECIDED property=C06: the decode table has %d brr entries' % len(ents))
@@ -22,7 +22,7 @@ PLAN = {
     'obligations': [], 'dynamic_obligations': dynamic_obligations,
     'trusted_base': ['peripherals are abstract: the countdown state machine whose Tick / GetMaxSkip / Skip agreement (Skip(k) == Tick^k for every k up to GetMaxSkip, no event inside) is proved for the real Timer in C15 and the real Btdmp in C16, unbounded in k; this check assumes that contract for the callbacks and checks its precondition (k <= GetMaxSkip) at every Skip call',
                      'instructions other than the idle self-branch are abstracted to nop (their effect does not depend on how Run is sliced: C01)'],
-    'assumptions': ['no hardware loop active, prpage = 0, pc away from the end of program space', 'host events at slice boundaries are the initial interrupt latches'],
+    'assumptions': ['no hardware loop active, prpage = 0, pc away from the end of program space', 'registers the instruction stream does not read (accumulators, address registers, banks, ...) are zero in both machines; pc, sp, ie, im, ip, ic, imv, ipv, cpc are symbolic', 'host events at slice boundaries are the initial interrupt latches'],
     'not_covered': ['BOUNDED: cycle budgets above the stated n; the unbounded statement needs an invariant on Run\'s local loop index, which cannot be attached without editing interpreter.h',
                     'real timers / audio port attached to the interpreter in one proof (covered compositionally: C15/C16 per peripheral + this check for Run); DMA, APBP traffic'],
 }
